@@ -23,14 +23,16 @@ using A_rbo_base = frg::_redblack::tree_crtp_struct<A_rbo, node, &node::hook, fr
 using A_rbhook = frg::rbtree_hook;
 
 // ---- C07: interval tree
+typedef signed char ep_t;      // endpoint type: overlap answers depend only on the order of endpoints, 256 values embed every
+                               // configuration of the <= 20 endpoints considered; a narrow type keeps the SAT queries small
 struct ival {
-	int lo;
-	int hi;
+	ep_t lo;
+	ep_t hi;
 	unsigned visits;          // ghost: number of callback invocations
 	frg::rbtree_hook rb;
-	frg::interval_hook<int> ih;
+	frg::interval_hook<ep_t> ih;
 };
-using A_it = frg::interval_tree<ival, int, &ival::lo, &ival::hi, &ival::rb, &ival::ih>;
+using A_it = frg::interval_tree<ival, ep_t, &ival::lo, &ival::hi, &ival::rb, &ival::ih>;
 using A_it_rb = A_it::binary_tree;
 using A_it_rb_base = frg::_redblack::tree_crtp_struct<A_it_rb, ival, &ival::rb, A_it::aggregator>;
 struct visit_fn {
@@ -50,8 +52,8 @@ using A_ph = frg::pairing_heap<item, frg::locate_member<item, frg::pairing_heap_
 using A_phhook = frg::pairing_heap_hook<item>;
 
 void frgv_force(A_it &t, visit_fn f) {
-	t.for_overlaps(f, 1, 2);
-	t.for_overlaps(f, 1);
+	t.for_overlaps(f, ep_t(1), ep_t(2));
+	t.for_overlaps(f, ep_t(1));
 }
 
 } // namespace frgv
@@ -60,7 +62,7 @@ template struct frg::_redblack::tree_struct<frgv::node, &frgv::node::hook, frgv:
 template struct frg::_redblack::tree_crtp_struct<frgv::A_rb, frgv::node, &frgv::node::hook, frg::null_aggregator>;
 template struct frg::_redblack::tree_order_struct<frgv::node, &frgv::node::hook, frg::null_aggregator>;
 template struct frg::_redblack::tree_crtp_struct<frgv::A_rbo, frgv::node, &frgv::node::hook, frg::null_aggregator>;
-template struct frg::interval_tree<frgv::ival, int, &frgv::ival::lo, &frgv::ival::hi, &frgv::ival::rb, &frgv::ival::ih>;
+template struct frg::interval_tree<frgv::ival, frgv::ep_t, &frgv::ival::lo, &frgv::ival::hi, &frgv::ival::rb, &frgv::ival::ih>;
 template struct frg::_redblack::tree_struct<frgv::ival, &frgv::ival::rb, frgv::A_it::lb_less, frgv::A_it::aggregator>;
 template struct frg::_redblack::tree_crtp_struct<frgv::A_it_rb, frgv::ival, &frgv::ival::rb, frgv::A_it::aggregator>;
 template struct frg::_pairing::pairing_heap<frgv::item, frg::locate_member<frgv::item, frg::pairing_heap_hook<frgv::item>, &frgv::item::hook>, frgv::item_cmp>;
